@@ -63,12 +63,12 @@ func (r *Run) access(key string, write bool, site Site) {
 	tid := s.cur.id
 	hb := func(e epoch) bool { return e.tid == tid || v[e.tid] >= e.clk }
 	if h.w != nil && !hb(*h.w) {
-		r.mustNot(True, "race", site, fmt.Sprintf("data race on %s: unordered with write at %s", key, h.w.site))
+		r.reportRace(site, fmt.Sprintf("data race on %s: unordered with write at %s", key, h.w.site))
 	}
 	if write {
 		for _, e := range h.reads {
 			if !hb(e) {
-				r.mustNot(True, "race", site, fmt.Sprintf("data race on %s: write unordered with read at %s", key, e.site))
+				r.reportRace(site, fmt.Sprintf("data race on %s: write unordered with read at %s", key, e.site))
 			}
 		}
 		h.w = &epoch{tid, v[tid], site.String()}
@@ -118,5 +118,24 @@ func (r *Run) vcAcquire(l *lockState, read bool) {
 	v.join(l.relW)
 	if !read {
 		v.join(l.relR)
+	}
+}
+
+// reportRace records a data race (once per site and path) and lets the path go on: a race is not a crash, and what
+// the racing accesses lead to - a torn pair, a key overwritten under a reader - is what the harness's assertions
+// then see and what the native replay can confirm (the race itself is invisible to a replay that serialises the
+// threads with a baton).
+func (r *Run) reportRace(site Site, msg string) {
+	k := site.String()
+	if r.raceSeen == nil {
+		r.raceSeen = map[string]bool{}
+	}
+	if r.raceSeen[k] {
+		return
+	}
+	r.raceSeen[k] = true
+	if len(r.taken) >= len(r.prefix) && r.sol.Check() == "sat" {
+		r.oblSat++
+		r.report("race", site, msg)
 	}
 }
